@@ -185,4 +185,77 @@ theorem write_bytes_spec (cd : Codec) (hcd : CodecOk cd) (c : Files.Case) (d : B
       exact dec_lines cd hcd d _ (by decide) 10 (Or.inr rfl)
     · rw [hans]; simp [Tty.CR, List.append_assoc]
 
+theorem mem_cook (x : Bytes) (c : Byte) (h : c ∈ Tty.cook x) : c ∈ x ∨ c = 13 := by
+  unfold Tty.cook at h
+  simp only [List.mem_flatMap] at h
+  obtain ⟨y, hy, hc⟩ := h
+  split at hc
+  · rename_i hlf
+    simp only [List.mem_cons, List.not_mem_nil, or_false, Tty.CR, Tty.LF] at hc
+    rcases hc with rfl | rfl
+    · exact Or.inr rfl
+    · exact Or.inl (by have : y = 10 := eq_of_beq hlf; rw [← this]; exact hy)
+  · simp only [List.mem_singleton] at hc
+    exact Or.inl (by rw [hc]; exact hy)
+
+theorem b64Out_class (cd : Codec) (hcd : CodecOk cd) (f : Bytes) : ∀ c ∈ Remote.b64Out cd f, isB64 c = true ∨ c = 10 := by
+  intro c hc
+  unfold Remote.b64Out at hc
+  simp only [List.mem_flatMap, List.mem_append, List.mem_singleton] at hc
+  obtain ⟨l, hl, hc | hc⟩ := hc
+  · exact Or.inl (hcd.alphabet f c (chunksOf_mem _ _ l hl c hc))
+  · exact Or.inr hc
+
+/-- **T-bytes/read.**  For every file content `f` and EVERY fragmentation `pr`: `read_bytes` returns `f`. -/
+theorem read_bytes_spec (cd : Codec) (hcd : CodecOk cd) (c : Files.Case) (d f : Bytes) (hd : c.data = .bytes d)
+    (hwf : c.wf = true) (pr : List Nat) : (runRead cd c f pr).1 = .bytes f := by
+  have hw := wf_facts c hwf
+  have hcls := b64Out_class cd hcd f
+  have hout : NoEarly (prompt c) (Tty.cook (Remote.b64Out cd f)) := by
+    apply noEarly_of_class b64Echo _ _ _ (promptClass c)
+    intro x hx
+    unfold b64Echo
+    rcases mem_cook _ x hx with h | h
+    · rcases hcls x h with h | h
+      · simp [h]
+      · simp [h]
+    · simp [h]
+  obtain ⟨ha1, hn1⟩ := cutBy_spec (splitSizes pr (respCmd false (prompt c) (b64Line c.path) (Remote.b64Out cd f)).length).1
+    (respCmd false (prompt c) (b64Line c.path) (Remote.b64Out cd f))
+  obtain ⟨ha2, hn2⟩ := cutBy_spec (splitSizes pr (respCmd false (prompt c) (b64Line c.path) (Remote.b64Out cd f)).length).2
+    (respStatus false (prompt c) 0)
+  obtain ⟨s', hrun⟩ := readBytes_ok cd c.path f _ _ (ss_init c hw.chunk) (blTable c) (promptOk c) hw.forb hout ha1 hn1 ha2 hn2
+  have hascii : ∀ b ∈ Remote.b64Out cd f, b.toNat < 128 := by
+    intro b hb
+    rcases hcls b hb with h | h
+    · exact (isB64_facts b h).1
+    · rw [h]; decide
+  have hcr : Tty.CR ∉ Remote.b64Out cd f := by
+    intro hm
+    rcases hcls _ hm with h | h
+    · exact (isB64_facts _ h).2.1 rfl
+    · exact absurd h (by decide)
+  unfold runRead
+  simp only [hd, hrun, valOfRes]
+  rw [ascii_text _ hascii hcr]
+  unfold Remote.b64Out
+  rw [dec_lines cd hcd f Remote.toolWrap (by decide) Tty.LF (Or.inr rfl)]
+
+/-- **T-bytes.**  `write_bytes d` followed by `read_bytes`, under every fragmentation of both
+    conversations: the write reports `|d|`, the file holds `d`, the read returns `d`, and what was
+    typed during the write is exactly the intended byte sequence. -/
+theorem bytes_roundtrip (cd : Codec) (hcd : CodecOk cd) (c : Files.Case) (d : Bytes) (hd : c.data = .bytes d)
+    (hwf : c.wf = true) (pw pr : List Nat) :
+    (Files.run cd c pw pr).ret = .n d.length ∧ (Files.run cd c pw pr).file = some d ∧ (Files.run cd c pw pr).back = .bytes d
+      ∧ (Files.run cd c pw pr).txW = writeTyped cd c := by
+  obtain ⟨s', hrun, htx, hsess⟩ := write_bytes_spec cd hcd c d hd hwf pw
+  have hread := read_bytes_spec cd hcd c d d hd hwf pr
+  unfold Files.run
+  simp only [hrun, hsess, valOfRes]
+  cases hr : runRead cd c d pr with
+  | mk rr sr =>
+    rw [hr] at hread
+    simp only at hread
+    exact ⟨trivial, trivial, hread, htx⟩
+
 end C11
